@@ -47,6 +47,7 @@ type Step struct {
 	Settle bool              `json:"settle,omitempty"`
 	Meta   string            `json:"meta,omitempty"`
 	Shape  string            `json:"shape,omitempty"`
+	Drain  []Step            `json:"drain,omitempty"` // stop / mqlost: delivered by the messaging client while it is being closed
 }
 
 // Do performs one step, waits for the system to block, and logs what it
@@ -210,6 +211,7 @@ func (w *World) do(st Step) bool {
 			return false
 		}
 		w.add(Rec{"e": "stop", "cause": ""})
+		w.mq.setDrain(st.Drain)
 		go w.svc.Stop(nil)
 		w.settleStop()
 		return true
@@ -218,6 +220,7 @@ func (w *World) do(st Step) bool {
 			return false
 		}
 		w.add(Rec{"e": "stop", "cause": "mq connection lost"})
+		w.mq.setDrain(st.Drain)
 		w.mq.lose(errors.New("mq connection lost"))
 		w.settleStop()
 		return true
